@@ -475,7 +475,10 @@ def run(ctx, prog):
             ren += flow.success_edges(m, c)
         atoms = [pathsens.Atom('attempt', r'^bool\[.*Path::exists\(.*"MANIFEST".*\)'),
                  pathsens.Atom('fresh_allowed', r'^bool\[.*PersistenceConfig\.allow_fresh_start_on_recovery_failure\]$'),
-                 pathsens.Atom('dir_exists', r'^bool\[Path::exists\((?!.*MANIFEST).*data_dir.*\)\]$')]
+                 pathsens.Atom('dir_exists', r'^bool\[Path::exists\((?!.*MANIFEST).*data_dir.*\)\]$'),
+                 pathsens.Atom('recovery_enabled', r'^bool\[.*PersistenceConfig\.enable_recovery\]$'),
+                 # the data directory still holds snapshot / log files (derived from read_dir(data_dir)): a lost MANIFEST, not a fresh directory
+                 pathsens.Atom('orphaned', r'^bool\[Result::unwrap_or\(Result::map\(fs::read_dir\(.*PersistenceConfig\.data_dir.*\), closure:.*\), (0|false)\)\]$')]
         terms, seen = pathsens.explore(m, atoms, mark_edges={'recover_ok': set(s_e), 'recover_err': set(f_e), 'quarantined': set(ren)},
                                        stop_blocks=new_blocks, max_states=400000)
         arrivals = [t for t in terms if t[0] in new_blocks]
@@ -491,6 +494,13 @@ def run(ctx, prog):
                                                    (a.get('quarantined') or a.get('dir_exists') is False))
             if not good:
                 bad.append((bb, a, path))
+        # with recovery enabled, "no MANIFEST" means a fresh directory only if no snapshot / log file is there: otherwise the MANIFEST was lost and starting empty
+        # silently drops what those files hold (C13: a removed file must lead to a refusal)
+        lost = [(bb, a, path) for (bb, via, a, path) in arrivals if a.get('attempt') is False and a.get('recovery_enabled') is True and a.get('orphaned') is not False]
+        ctx.inst('C01.R6', 'kyrodb_server::main', 'no empty engine over a data directory whose MANIFEST is missing but whose snapshot / log files are there',
+                 bool(seen.get('orphaned')) and bool(seen.get('recovery_enabled')) and not lost,
+                 ('an empty engine is created at %s with recovery enabled, no MANIFEST, and the directory not known to be free of snapshot / log files: %s' % (m.loc_of(lost[0][0]), lost[0][1])) if lost
+                 else ('guard not recognised (read_dir(data_dir) test / enable_recovery)' if not (seen.get('orphaned') and seen.get('recovery_enabled')) else 'every such arrival passed the ¬orphaned edge'))
         ctx.inst('C01.R6', 'kyrodb_server::main', 'empty engine only when recovery is skipped or explicitly abandoned', not bad,
                  ('an empty engine is created at %s with guards %s' % (m.loc_of(bad[0][0]), bad[0][1])) if bad else
                  '%d abstract arrivals at %d creation sites, all guarded' % (len(arrivals), len(new_blocks)),
